@@ -96,10 +96,17 @@ func runOne(ctx context.Context, s solverSpec, file string, timeout time.Duratio
 	cmd.Stderr = &out
 	cmd.Run() //nolint:errcheck
 	raw := out.String()
-	first := strings.TrimSpace(strings.SplitN(raw, "\n", 2)[0])
-	switch first {
-	case "unsat", "sat":
-		return first, raw
+	for _, line := range strings.Split(raw, "\n") {
+		line = strings.TrimSpace(line)
+		switch line {
+		case "unsat", "sat":
+			return line, raw
+		case "unknown", "timeout":
+			return "unknown", raw
+		}
+		if strings.HasPrefix(line, "(error") {
+			return "unknown", raw
+		}
 	}
 	return "unknown", raw
 }
